@@ -95,6 +95,15 @@ def gen_plan(prop, tier, rng, i):
             else:
                 ev["dst"] = _mkpath(rng, (wstart, wend))
         events.append(ev)
+        if rng.random() < 0.1:
+            # a replayed existing file (dispatched without the window test, as DigitalRFMirror.start() does), then
+            # ordinary time-checked events for the same and for another path
+            ms = (wstart if wstart is not None else BASE * 1000) + rng.choice([-5000, -1000, -1, 0, 7000])
+            nm = rng.choice(["rf@%d.%03d.h5" % (ms // 1000, ms % 1000), "metadata@%d.h5" % (ms // 1000)])
+            pth = "ch0/%s/%s" % (SUBDIRS[0], nm)
+            events.append({"k": "created", "src": pth, "untimed": True})
+            for _ in range(rng.randrange(1, 3)):
+                events.append({"k": rng.choice(["modified", "deleted", "created"]), "src": pth})
     plan = {"engine": "evsim15", "flags": flags, "wstart": wstart, "wend": wend, "events": events,
             "recording": None, "tzform": rng.choice(["utc", "utc", "naive", "+0530", "-0800"]),
             # time zone of the process that builds the handler (naive bounds mean UTC whatever it is)
@@ -165,9 +174,21 @@ class Oracle:
     def __init__(self, scratch, flags, wstart, wend):
         self.scratch, self.flags, self.wstart, self.wend = scratch, flags, wstart, wend
         self.cache = {}
+        self.cache_untimed = {}
         self.n = 0
 
-    def accepted(self, rel):
+    def accepted(self, rel, timed=True):
+        """timed=False: the caller asked for no window test (how the mirror replays the files an existing listing
+        returned, e.g. the forward-fill metadata file from before the window)"""
+        if not timed:
+            saved = self.wstart, self.wend
+            self.wstart = self.wend = None
+            cache, self.cache = self.cache, self.cache_untimed
+            try:
+                return self.accepted(rel)
+            finally:
+                self.wstart, self.wend = saved
+                self.cache = cache
         if rel in self.cache:
             return self.cache[rel]
         import digital_rf
@@ -312,8 +333,13 @@ def run_plan(prop, plan):
             else:
                 e = mk[k](src)
             del calls[:]
+            timed = not ev.get("untimed")
             try:
-                h.dispatch(e)
+                if timed:
+                    h.dispatch(e)
+                else:
+                    h.dispatch(e, match_time=False)
+                    res.probe("dispatch_without_time_matching")
             except Exception as ex:  # noqa
                 res.violate("C15", "dispatch_raises", "dispatch(%s %s) raised %s: %s" % (k, ev["src"], type(ex).__name__, ex))
                 continue
@@ -323,7 +349,7 @@ def run_plan(prop, plan):
             if k.startswith("dir_"):
                 exp = []
             elif k == "moved":
-                a_s, a_d = oracle.accepted(ev["src"]), oracle.accepted(ev["dst"])
+                a_s, a_d = oracle.accepted(ev["src"], timed), oracle.accepted(ev["dst"], timed)
                 if a_s and a_d:
                     exp = [("moved", src, dst)]
                     res.probe("move_both_match")
@@ -336,7 +362,7 @@ def run_plan(prop, plan):
                 else:
                     exp = []
             else:
-                exp = [(k, src, None)] if oracle.accepted(ev["src"]) else []
+                exp = [(k, src, None)] if oracle.accepted(ev["src"], timed) else []
                 if exp:
                     res.probe("accepted_" + k)
             if got != exp:
